@@ -24,8 +24,8 @@ ASSUMPTIONS = [
     "strict JSON equality: json.dumps(sort_keys=True) text",
     "array elements (and members of objects inside arrays) avoid bool/float values equal to ints: the third-party jsonpatch library diffs arrays with Python ==",
 ]
-FLOORS = {"quick": {"fragments_applied": 3000, "patches_applied": 2000, "filters_applied": 1500, "glob_patterns": 2000, "chains": 300},
-          "thorough": {"fragments_applied": 150000, "patches_applied": 100000, "filters_applied": 70000, "glob_patterns": 100000, "chains": 15000}}
+FLOORS = {"quick": {"fragments_applied": 3000, "patches_applied": 2000, "filters_applied": 1500, "glob_patterns": 2000, "chains": 300, "chains_with_descending_reload_prio": 100},
+          "thorough": {"fragments_applied": 150000, "patches_applied": 100000, "filters_applied": 70000, "glob_patterns": 100000, "chains": 15000, "chains_with_descending_reload_prio": 5000}}
 KEYS = ["a", "b", "c", "a/b", "m~n", "x|y", "*", "0", "Ethernet0", "Ethernet4"]
 SCALARS = [0, 1, 2, True, False, None, 1.0, "s", "xyz", "", "1"]
 
@@ -408,12 +408,17 @@ def check_chain(rng, schema, acc, seed):
     old = gen_doc(rng, schema)
     res = RunGeneratorResult()
     frs = []
+    prng = random.Random(seed ^ 0x5EED)  # reload priorities: any order, ties, zero (they choose the reload command, never the content)
+    prios = []
     for i in range(rng.randint(2, 3)):
         frag = gen_doc(rng, schema, 0.6)
         acl = [p for p in gen_patterns(rng, schema, False)]
         frs.append((frag, acl))
-        res.add_json_fragment(types.SimpleNamespace(name="g%d" % i, path="/etc/x.json", acl=acl, acl_safe=acl, config=frag, reload="r%d" % i, reload_prio=i))
-    w = {"seed": seed, "op": "chain", "old": old, "fragments": frs}
+        prios.append(prng.choice([0, 1, 5, 5, 10, 100 - i]))
+        res.add_json_fragment(types.SimpleNamespace(name="g%d" % i, path="/etc/x.json", acl=acl, acl_safe=acl, config=frag, reload="r%d" % i, reload_prio=prios[-1]))
+    w = {"seed": seed, "op": "chain", "old": old, "fragments": frs, "reload_prios": prios}
+    if prios != sorted(prios):
+        acc.count("chains_with_descending_reload_prio")
     try:
         files = res.new_json_fragment_files({"/etc/x.json": old})
         exp = old
@@ -432,6 +437,20 @@ def check_chain(rng, schema, acc, seed):
     if J(files["/etc/x.json"][0]) != J(exp):
         acc.violation("C13/chain/differs-from-sequential-merge", "several generators over one file do not give the result of merging their fragments one after another",
                       dict(w, got=files["/etc/x.json"][0], expected=exp))
+        return
+    # the reload command: of the generators that changed the document, a strictly highest priority wins
+    cur, changed = old, []
+    for i, (frag, acl) in enumerate(frs):
+        nxt = jsontools.apply_json_fragment(cur, frag, acl)
+        if J(nxt) != J(cur):
+            changed.append(i)
+        cur = nxt
+    if changed:
+        top = max(prios[i] for i in changed)
+        winners = [i for i in changed if prios[i] == top]
+        if len(winners) == 1 and top > 0 and files["/etc/x.json"][1] != "r%d" % winners[0]:
+            acc.violation("C13/chain/wrong-reload-command", "the reload command is not that of the highest-priority generator that changed the file",
+                          dict(w, got=files["/etc/x.json"][1], expected="r%d" % winners[0]))
 
 
 def run_case(seed, acc):
